@@ -8,6 +8,11 @@
  * RESET <mode> ...: mode "tab" installs a table-driven hash function: the RESET line carries the 64-bit hash
  * code of each class (so hash assignments chosen by the model checker or by the adversarial random driver are
  * replayed on the real table); the other modes use the library's own hash / equality pairs on real keys.
+ * Mode "string_own": keys AND values are aws_strings that the table owns through aws_hash_callback_string_destroy;
+ * what the destructor did is observed at the allocator (which of the adapter's string objects were released during
+ * the call), so a skipped destruction shows as a missing release and a repeated one as an ASan double free.
+ * INIT ... alt=1 (table-driven mode) gives the table a second hash function (the code table read backwards): hash
+ * functions belong to a table, not to a key type (aws_hash_table_eq: "need not be equivalent between the two tables").
  * The adapter holds no expected values: it applies calls and projects what it sees. */
 #include "vh_core.h"
 
@@ -21,21 +26,29 @@
 #define NOBJ 4
 #define NT 2
 
-enum mode { M_TAB, M_CSTR, M_STRING, M_CURSOR, M_CURSOR_IC, M_PTR, M_U64 };
+enum mode { M_TAB, M_CSTR, M_STRING, M_CURSOR, M_CURSOR_IC, M_PTR, M_U64, M_OWN };
 static enum mode mode;
 static struct aws_hash_table tabs[NT + 1];
-static uint64_t codes[NCLS];
+static uint64_t codes[NCLS], codes_alt[NCLS];
 struct tkey {
     int cls;
 };
 static void *kobj[NCLS][NOBJ]; /* the key pointers handed to the library */
 static void *kmem[NCLS][NOBJ]; /* backing byte blocks of cursors */
+static bool kalive[NCLS][NOBJ]; /* string_own: the object has not been released (object lifetime, not table content) */
+#define MAXV 512
+static void *vobj[MAXV]; /* string_own: value id -> aws_string */
+static bool valive[MAXV];
+static size_t acq_mark; /* allocator acquisitions before the call under observation */
 static struct aws_hash_iter iter;
 static bool iter_ok;
 
 /* ---------------------------------------------------------------- callbacks */
 static uint64_t tab_hash(const void *k) {
     return codes[((const struct tkey *)k)->cls];
+}
+static uint64_t tab_hash_alt(const void *k) {
+    return codes_alt[((const struct tkey *)k)->cls];
 }
 static bool tab_eq(const void *a, const void *b) {
     return ((const struct tkey *)a)->cls == ((const struct tkey *)b)->cls;
@@ -57,6 +70,17 @@ static long long id_of_key(const void *k) {
     return -2; /* not a pointer this adapter ever handed out */
 }
 static long long id_of_val(const void *v) {
+    if (mode == M_OWN) {
+        if (v == NULL) {
+            return 0;
+        }
+        for (int i = 1; i < MAXV; ++i) {
+            if (vobj[i] == v) {
+                return i;
+            }
+        }
+        return -2;
+    }
     uintptr_t u = (uintptr_t)v;
     return u < 100000 ? (long long)u : -2;
 }
@@ -77,6 +101,33 @@ static void destroyed(void) {
     vh_ints("dk", dk_log, n_dk);
     vh_ints("dv", dv_log, n_dv);
 }
+/* string_own: the strings are made with this allocator, so aws_hash_callback_string_destroy (= aws_string_destroy)
+ * ends here: the release of a key / value object IS its destruction; anything else passes through untouched */
+static void own_rel(struct aws_allocator *a, void *p) {
+    (void)a;
+    for (int c = 1; c < NCLS; ++c) {
+        for (int o = 0; o < NOBJ; ++o) {
+            if (kalive[c][o] && kobj[c][o] == p) {
+                destroy_key(p);
+                kalive[c][o] = false;
+                kobj[c][o] = NULL; /* the address may be handed out again */
+            }
+        }
+    }
+    for (int i = 1; i < MAXV; ++i) {
+        if (valive[i] && vobj[i] == p) {
+            destroy_val(p);
+            valive[i] = false;
+            vobj[i] = NULL;
+        }
+    }
+    vh_alloc()->mem_release(vh_alloc(), p);
+}
+static void *own_acq(struct aws_allocator *a, size_t n) {
+    (void)a;
+    return vh_alloc()->mem_acquire(vh_alloc(), n);
+}
+static struct aws_allocator own_allocator = {.mem_acquire = own_acq, .mem_release = own_rel};
 
 /* ---------------------------------------------------------------- key objects */
 static void key_text(int c, int p, char *out) {
@@ -99,6 +150,13 @@ static void free_keys(void) {
                 kobj[c][p] = NULL;
                 continue;
             }
+            if (mode == M_OWN) {
+                if (kalive[c][p]) {
+                    aws_string_destroy(kobj[c][p]);
+                }
+                kobj[c][p] = NULL;
+                continue;
+            }
             if (kobj[c][p]) {
                 if (mode == M_STRING) {
                     aws_string_destroy(kobj[c][p]);
@@ -110,6 +168,20 @@ static void free_keys(void) {
             kobj[c][p] = kmem[c][p] = NULL;
         }
     }
+    if (mode == M_OWN) { /* the objects no table destroyed are the caller's to free */
+        for (int i = 1; i < MAXV; ++i) {
+            if (valive[i]) {
+                aws_string_destroy(vobj[i]);
+            }
+            vobj[i] = NULL;
+        }
+    }
+}
+static void make_own_key(int c, int p) {
+    char txt[32];
+    sprintf(txt, "key-%c%c", (char)('a' + c), (char)('a' + (c * 7) % 26));
+    kobj[c][p] = aws_string_new_from_array(&own_allocator, (const uint8_t *)txt, strlen(txt));
+    kalive[c][p] = true;
 }
 static void make_keys(void) {
     char txt[32];
@@ -132,6 +204,9 @@ static void make_keys(void) {
                 }
                 case M_STRING:
                     kobj[c][p] = aws_string_new_from_array(vh_alloc(), (const uint8_t *)txt, n);
+                    break;
+                case M_OWN:
+                    make_own_key(c, p);
                     break;
                 case M_CURSOR:
                 case M_CURSOR_IC: {
@@ -163,7 +238,27 @@ static void make_keys(void) {
     }
 }
 static const void *key_ptr(int c, int p) {
+    if (c != 0 && mode == M_OWN && !kalive[c][p]) {
+        make_own_key(c, p); /* the previous object with this id was destroyed: a new object takes the id */
+    }
     return c == 0 ? NULL : kobj[c][p];
+}
+/* values: an id carried in the pointer itself; string_own: an aws_string "v<id mod 3>" (so distinct value objects
+ * can be equal under aws_hash_callback_string_eq), made when the id is first used */
+static void *val_ptr(long long v) {
+    if (mode != M_OWN) {
+        return (void *)(uintptr_t)v;
+    }
+    if (v <= 0 || v >= MAXV) {
+        return NULL;
+    }
+    if (!valive[v]) {
+        char txt[16];
+        sprintf(txt, "v%d", (int)(v % 3));
+        vobj[v] = aws_string_new_from_array(&own_allocator, (const uint8_t *)txt, strlen(txt));
+        valive[v] = true;
+    }
+    return vobj[v];
 }
 static bool eq_cursor_ic(const void *a, const void *b) {
     return aws_byte_cursor_eq_ignore_case(a, b);
@@ -178,6 +273,7 @@ static aws_hash_fn *hash_fn_of(enum mode m) {
         case M_CSTR:
             return aws_hash_c_string;
         case M_STRING:
+        case M_OWN:
             return aws_hash_string;
         case M_CURSOR:
             return aws_hash_byte_cursor_ptr;
@@ -197,6 +293,7 @@ static aws_hash_callback_eq_fn *eq_fn_of(enum mode m) {
         case M_CSTR:
             return aws_hash_callback_c_str_eq;
         case M_STRING:
+        case M_OWN:
             return aws_hash_callback_string_eq;
         case M_CURSOR:
             return eq_cursor;
@@ -210,8 +307,8 @@ static aws_hash_callback_eq_fn *eq_fn_of(enum mode m) {
     return NULL;
 }
 static enum mode mode_of(const char *s) {
-    static const char *names[] = {"tab", "cstr", "string", "cursor", "cursor_ic", "ptr", "u64"};
-    for (int i = 0; i < 7; ++i) {
+    static const char *names[] = {"tab", "cstr", "string", "cursor", "cursor_ic", "ptr", "u64", "string_own"};
+    for (int i = 0; i < 8; ++i) {
         if (!strcmp(s, names[i])) {
             return (enum mode)i;
         }
@@ -233,6 +330,11 @@ static void state(void) {
     }
     vh_ints("live", lv, NT);
     vh_ints("n", n, NT);
+    long long ok[NT];
+    for (int t = 1; t <= NT; ++t) { /* aws_hash_table_is_valid: "best-effort check of the data-structure invariants" */
+        ok[t - 1] = is_live(t) ? (aws_hash_table_is_valid(&tabs[t]) ? 1 : 0) : -1;
+    }
+    vh_ints("ok", ok, NT);
     long long fk[NT][NCLS], fv[NT][NCLS];
     for (int t = 1; t <= NT; ++t) {
         for (int c = 0; c < NCLS; ++c) {
@@ -289,6 +391,7 @@ static void shown(void) {
     vh_int("done", done ? 1 : 0);
     vh_int("ek", done ? -1 : id_of_key(iter.element.key));
     vh_int("ev", done ? -1 : id_of_val(iter.element.value));
+    vh_int("iv", aws_hash_iter_is_valid(&iter) ? 1 : 0);
 }
 
 /* foreach callback: answers the scripted flag words in order, CONTINUE afterwards */
@@ -308,6 +411,32 @@ static int fe_cb(void *context, struct aws_hash_element *el) {
     }
     x->calls++;
     return f;
+}
+
+/* aws_hash_table_eq: the value comparator handed in, and what the library showed it.
+ * kind 0: pointer identity (aws_ptr_eq); 1: "same value class" - ids equal mod 3 (string_own: the strings are equal,
+ * aws_hash_callback_string_eq); 2: any two values are equal. NULL is only ever equal to NULL. */
+static long long cmp_log[MAXD][2];
+static size_t n_cmp;
+static int veq_kind;
+static bool veq(const void *a, const void *b) {
+    long long ia = id_of_val(a), ib = id_of_val(b);
+    if (n_cmp < MAXD) {
+        cmp_log[n_cmp][0] = ia;
+        cmp_log[n_cmp][1] = ib;
+        n_cmp++;
+    }
+    if (a == NULL || b == NULL) {
+        return a == b;
+    }
+    switch (veq_kind) {
+        case 0:
+            return aws_ptr_eq(a, b);
+        case 1:
+            return mode == M_OWN ? aws_hash_callback_string_eq(a, b) : (ia % 3 == ib % 3);
+        default:
+            return true;
+    }
 }
 
 /* ---------------------------------------------------------------- the library's own hash / equality pairs */
@@ -396,8 +525,15 @@ int main(int argc, char **argv) {
             }
             mode = mode_of(vh_args(1));
             memset(codes, 0, sizeof(codes));
-            for (int c = 1; c < NCLS && c + 1 < vh_ntok; ++c) {
-                codes[c] = vh_argu(c + 1);
+            memset(codes_alt, 0, sizeof(codes_alt));
+            /* RESET <mode> <n> <code of class 1> ... <code of class n> */
+            int ngiven = 0;
+            for (int c = 1; c < NCLS && c + 2 < vh_ntok; ++c) {
+                codes[c] = vh_argu(c + 2);
+                ngiven = c;
+            }
+            for (int c = 1; c <= ngiven; ++c) {
+                codes_alt[c] = codes[ngiven + 1 - c];
             }
             make_keys();
             have_keys = true;
@@ -429,16 +565,19 @@ int main(int argc, char **argv) {
                 skip("init", "live", t);
                 continue;
             }
-            int hk = (int)vh_argi(3), hv = (int)vh_argi(4);
+            int hk = (int)vh_argi(3), hv = (int)vh_argi(4), alt = (vh_ntok > 5 && mode == M_TAB) ? (int)vh_argi(5) : 0;
+            aws_hash_callback_destroy_fn *kfn = mode == M_OWN ? aws_hash_callback_string_destroy : destroy_key;
+            aws_hash_callback_destroy_fn *vfn = mode == M_OWN ? aws_hash_callback_string_destroy : destroy_val;
             int rc = aws_hash_table_init(
-                &tabs[t], vh_alloc(), (size_t)vh_argu(2), hash_fn_of(mode), eq_fn_of(mode), hk ? destroy_key : NULL,
-                hv ? destroy_val : NULL);
+                &tabs[t], vh_alloc(), (size_t)vh_argu(2), alt ? tab_hash_alt : hash_fn_of(mode), eq_fn_of(mode),
+                hk ? kfn : NULL, hv ? vfn : NULL);
             iter_ok = false;
             vh_begin("Init");
             vh_int("t", t);
             vh_int("isz", vh_argi(2));
             vh_int("kfn", hk);
             vh_int("vfn", hv);
+            vh_int("alt", alt);
             vh_rc(rc);
             destroyed();
             state();
@@ -450,7 +589,11 @@ int main(int argc, char **argv) {
                 continue;
             }
             int created = -1;
-            int rc = aws_hash_table_put(&tabs[t], key_ptr(c, p), (void *)(uintptr_t)v, wc ? &created : NULL);
+            const void *kp = key_ptr(c, p);
+            void *vp = val_ptr(v);
+            acq_mark = vh_total_acquires;
+            int rc = aws_hash_table_put(&tabs[t], kp, vp, wc ? &created : NULL);
+            long long acq = (long long)(vh_total_acquires - acq_mark);
             iter_ok = false;
             vh_begin("Put");
             vh_int("t", t);
@@ -458,6 +601,7 @@ int main(int argc, char **argv) {
             vh_int("p", p);
             vh_int("v", v);
             vh_int("wc", created);
+            vh_int("acq", acq); /* allocator acquisitions made by the call: did the table grow? */
             vh_rc(rc);
             destroyed();
             state();
@@ -470,7 +614,11 @@ int main(int argc, char **argv) {
             }
             int created = -1;
             struct aws_hash_element *el = NULL;
-            int rc = aws_hash_table_create(&tabs[t], key_ptr(c, p), &el, wc ? &created : NULL);
+            const void *kp = key_ptr(c, p);
+            void *sp = setv >= 0 ? val_ptr(setv) : NULL;
+            acq_mark = vh_total_acquires;
+            int rc = aws_hash_table_create(&tabs[t], kp, &el, wc ? &created : NULL);
+            long long acq = (long long)(vh_total_acquires - acq_mark);
             iter_ok = false;
             vh_begin("Create");
             vh_int("t", t);
@@ -481,8 +629,9 @@ int main(int argc, char **argv) {
             vh_int("ev", el ? id_of_val(el->value) : -1);
             vh_int("setv", setv);
             if (el && setv >= 0) {
-                el->value = (void *)(uintptr_t)setv; /* "calling code may alter value" */
+                el->value = sp; /* "calling code may alter value" */
             }
+            vh_int("acq", acq);
             vh_rc(rc);
             destroyed();
             state();
@@ -636,6 +785,7 @@ int main(int argc, char **argv) {
             aws_hash_iter_delete(&iter, destroy != 0);
             vh_begin("IterDelete");
             vh_int("destroy", destroy);
+            vh_int("iv", aws_hash_iter_is_valid(&iter) ? 1 : 0);
             destroyed();
             state();
             vh_end();
@@ -665,6 +815,69 @@ int main(int argc, char **argv) {
             destroyed();
             state();
             vh_end();
+        } else if (vh_is("EQ")) {
+            int a = (int)vh_argi(1), b = (int)vh_argi(2);
+            static const char *kinds[] = {"id", "m3", "all"};
+            veq_kind = -1;
+            for (int i = 0; i < 3; ++i) {
+                if (!strcmp(vh_args(3), kinds[i])) {
+                    veq_kind = i;
+                }
+            }
+            if (veq_kind < 0) {
+                fprintf(stderr, "script: unknown comparator %s\n", vh_args(3));
+                exit(3);
+            }
+            if (!is_live(a) || !is_live(b)) { /* both tables must be valid */
+                skip("eq", "dead", is_live(a) ? b : a);
+                continue;
+            }
+            n_cmp = 0;
+            bool r = aws_hash_table_eq(&tabs[a], &tabs[b], veq); /* non-mutating: a user iterator stays usable */
+            vh_begin("Eq");
+            vh_int("a", a);
+            vh_int("b", b);
+            vh_str("kind", kinds[veq_kind]);
+            vh_int("r", r ? 1 : 0);
+            vh_arr_begin("cmp");
+            for (size_t i = 0; i < n_cmp; ++i) {
+                vh_sep();
+                fprintf(vh_out, "[%lld,%lld]", cmp_log[i][0], cmp_log[i][1]);
+            }
+            vh_arr_end();
+            destroyed();
+            state();
+            vh_end();
+        } else if (vh_is("COMBINE")) {
+            uint64_t a1 = vh_argu(1), b1 = vh_argu(2), a2 = vh_argu(3), b2 = vh_argu(4);
+            uint64_t x = aws_hash_combine(a1, b1), y = aws_hash_combine(a2, b2);
+            vh_begin("Combine");
+            vh_str("rel", vh_args(5));
+            vh_wide("x", x);
+            vh_wide("y", y);
+            vh_int("same", x == y ? 1 : 0);
+            vh_int("stable", (aws_hash_combine(a1, b1) == x && aws_hash_combine(a2, b2) == y) ? 1 : 0);
+            vh_end();
+        } else if (vh_is("XHASH")) {
+            /* the same bytes (no NUL among them) as a C string, an aws_string and a byte cursor */
+            uint8_t raw[64];
+            size_t n = unhex(vh_args(1), raw);
+            char *cs = malloc(n + 1);
+            memcpy(cs, raw, n);
+            cs[n] = 0;
+            struct aws_string *st = aws_string_new_from_array(vh_alloc(), raw, n);
+            uint8_t *bytes = malloc(n ? n : 1);
+            memcpy(bytes, raw, n);
+            struct aws_byte_cursor cur = {.len = n, .ptr = bytes};
+            uint64_t h1 = aws_hash_c_string(cs), h2 = aws_hash_string(st), h3 = aws_hash_byte_cursor_ptr(&cur);
+            vh_begin("XHash");
+            vh_int("n", (long long)n);
+            vh_int("cs", h1 == h2 ? 1 : 0);
+            vh_int("cc", h1 == h3 ? 1 : 0);
+            vh_end();
+            free(cs);
+            free(bytes);
+            aws_string_destroy(st);
         } else if (vh_is("END")) {
             break;
         } else {
